@@ -86,8 +86,11 @@ public:
                   "T should be trivially copyable");
 #endif
 
+    // same rounding as `capacity` below: N == 1 gives capacity 2 (and
+    // __builtin_clzll(0) is undefined), so it needs 2 slots as well
     constexpr static size_t SLOTS_NUM =
-        N ? 1ULL<< (8 * sizeof(size_t) - __builtin_clzll(N - 1)) : 0;
+        N > 1 ? 1ULL<< (8 * sizeof(size_t) - __builtin_clzll(N - 1))
+              : (N ? 2 : 0);
 
     const size_t capacity;
     const size_t mask;
